@@ -27,7 +27,8 @@ REASONS = [
     (r"^<repository::x509::Serial as bcder::encode::PrimitiveContent>::(encoded_len|write_encoded)$", r".",
      "Serial::start() returns an index <= 19 < 20"),
     (r"^<repository::x509::Serial as std::convert::From<u(64|128)>>::from$", r"call:unwrap",
-     "to_be_bytes() yields 8/16 octets: non-empty, at most 20, and the 20-octet array's first octet stays 0"),
+     "to_be_bytes() of a primitive unsigned integer yields 1..=16 octets: non-empty, at most 20, and the 20-octet array's first octet stays 0",
+     [], None, [], r"^<repository::x509::Serial as std::convert::From<u(8|16|32|64|128|size)>>::from$"),
     (r"^<repository::x509::Serial as std::str::FromStr>::from_str$", r"assert:Overflow:Sub",
      "inside the match arm '0'..='9': ch as u8 >= b'0'", [r"^48 <= "]),
     (r"^<repository::x509::Time as std::ops::(Add|Sub)<chrono::TimeDelta>>::(add|sub)$", r".",
@@ -224,7 +225,10 @@ def main():
                             for g in C04.guards_missing(guards, have):
                                 print("  GUARD DOES NOT MATCH", key[:120], g, have)
                     row["guards"] = guards
-                if len(ent) > 5:
+                if len(ent) > 6:
+                    # the reason holds for a whole family of functions (same construct, e.g. one impl per integer type)
+                    row["fn_family"] = ent[6]
+                if len(ent) > 5 and ent[5]:
                     row["remote"] = [{"fn": a, "guard": b} for a, b in ent[5]]
                     for a, b in ent[5]:
                         okr, whyr = C04.remote_guard_holds(f, a, b)
